@@ -1,22 +1,25 @@
 (* C15 -- isolating external calls in the co-process does not change program behaviour.
    Only property theorems here.  Model: NV.Proto.CopCodec (cop_serialize_value / cop_deserialize_value / framing /
-   request of vm_ffi_call_cop / reply of handle_ffi_req); constants: NV.gen.CopConst, regenerated from the sources on every run.
+   request of vm_ffi_call_cop / reply of handle_ffi_req); constants: NV.gen.CopConst, regenerated from the sources on every run
+   (buffer bounds, nesting limit, the error text for an over-large result).
    The callee (vm_ffi_call: dlsym + marshalling) is the same C code on both paths and is an arbitrary function here.
-   Allocation is assumed to succeed (deser = deserializer with an allocator that grants every count the format can express). *)
+   Allocation is assumed to succeed in the round trip (deser = decoder with an allocator that grants every count < 2^32). *)
 From Coq Require Import NArith List Bool.
 From NV Require Import Base.Bytes gen.CopConst Proto.CopCodec Proto.CopCodecProofs.
 Import ListNotations.
 Local Open Scope N_scope.
 
 (* the generated constants have the shape the model relies on: distinct byte-sized tags for the seven wire cases,
-   8-byte packed header (version, type, reserved u16, payload_len u32), little-endian host *)
+   8-byte packed header (version, type, reserved u16, payload_len u32), little-endian host; and the request / reply buffers
+   now grow up to the protocol bound *)
 Theorem C15_constants :
   forallb (fun t => t <? 256) [TAG_VOID; TAG_INT; TAG_FLOAT; TAG_BOOL; TAG_STRING; TAG_ARRAY; TAG_OPAQUE] = true /\
   NoDup [TAG_VOID; TAG_INT; TAG_FLOAT; TAG_BOOL; TAG_STRING; TAG_ARRAY; TAG_OPAQUE] /\
   (HDR_SIZEOF, COP_HEADER_SIZE, HDR_OFF_VERSION, HDR_OFF_TYPE, HDR_OFF_RESERVED, HDR_OFF_LEN) = (8, 8, 0, 1, 2, 4) /\
   LITTLE_ENDIAN = 1 /\ COP_PROTO_VERSION < 256 /\ COP_MAX_PAYLOAD < 2 ^ 32 /\
-  REQ_MAX_ARGS = COP_ARGS_MAX /\ COP_ARGS_MAX <= COP_ARGS_ARRAY /\ REQ_BUF_SIZE <= COP_MAX_PAYLOAD /\
-  COP_REPLY_STACK_BUF <= COP_REPLY_BIG_BUF /\ COP_REPLY_BIG_BUF <= COP_MAX_PAYLOAD.
+  REQ_MAX_ARGS = COP_ARGS_MAX /\ COP_ARGS_MAX <= COP_ARGS_ARRAY /\
+  REQ_BUF_SIZE = COP_MAX_PAYLOAD /\ COP_REPLY_BIG_BUF = COP_MAX_PAYLOAD /\ COP_REPLY_STACK_BUF <= COP_REPLY_BIG_BUF /\
+  len COP_REPLY_TOO_LARGE_MSG <= 255 /\ 0 < COP_MAX_NESTING.
 Proof.
   split; [vm_compute; reflexivity|]. split.
   { repeat (constructor; [vm_compute; intuition discriminate|]). constructor. }
@@ -26,18 +29,26 @@ Print Assumptions C15_constants.
 
 (* every value of a transferable type arrives bit-for-bit: deserialize (serialize v ++ anything) = v, consuming exactly
    the encoding.  transferable = int/float/opaque 64-bit patterns, bool, byte strings (length + 5 < 2^32), void, and
-   arrays (count < 2^32, any element-type byte) of transferable values, nested to any depth. *)
+   arrays (count < 2^32, any element-type byte) of transferable values, nested at most COP_MAX_NESTING (256) array levels --
+   the bound the decoder enforces since it stopped recursing without limit. *)
 Theorem C15_deser_ser : forall v rest, transferable v ->
   deser (ser v ++ rest) = Some (v, length (ser v)).
 Proof. exact deser_ser. Qed.
 Print Assumptions C15_deser_ser.
 
-Theorem C15_ser_bytes_ok : forall v, transferable v -> bytes_ok (ser v).
+Theorem C15_transferable_def : forall v, transferable v <-> wf_value v /\ vdepth v <= COP_MAX_NESTING.
+Proof.
+  intros v. unfold transferable, transferableb, wf_value. rewrite andb_true_iff, N.leb_le. tauto.
+Qed.
+Print Assumptions C15_transferable_def.
+
+Theorem C15_ser_bytes_ok : forall v, wf_value v -> bytes_ok (ser v).
 Proof. exact ser_bytes_ok. Qed.
 Print Assumptions C15_ser_bytes_ok.
 
-(* cop_serialize_value(v, buf, cap) writes exactly the layout when it fits and returns 0 otherwise (never overruns) *)
-Theorem C15_ser_buf_exact : forall v, transferable v -> forall cap,
+(* cop_serialize_value(v, buf, cap) writes exactly the layout when it fits and returns 0 otherwise (never overruns);
+   holds at any nesting depth (the serializer has no depth limit) *)
+Theorem C15_ser_buf_exact : forall v, wf_value v -> forall cap,
   ser_buf v cap = if ser_size v <=? cap then SOk (ser v) else SNoRoom.
 Proof. exact ser_buf_spec. Qed.
 Print Assumptions C15_ser_buf_exact.
@@ -46,48 +57,65 @@ Theorem C15_ser_size : forall v, ser_size v = len (ser v).
 Proof. exact ser_size_len. Qed.
 Print Assumptions C15_ser_size.
 
-(* the deserializer's recursion is bounded by the buffer (the model's fuel never runs out) and it never claims more
-   bytes than it was given *)
+(* the decoder, on ARBITRARY bytes and with ANY allocator limit: its recursion is bounded by the buffer (the model's fuel never
+   runs out), it never reads or writes out of bounds, and it never claims more bytes than it was given *)
 Theorem C15_deser_fuel_enough : forall amax bs, deser_a amax bs <> DFuel.
 Proof. exact deser_fuel_enough. Qed.
 Print Assumptions C15_deser_fuel_enough.
+
+Theorem C15_deser_never_oob : forall amax bs, deser_a amax bs <> DOob.
+Proof. exact deser_never_oob. Qed.
+Print Assumptions C15_deser_never_oob.
 
 Theorem C15_deser_consumed : forall bs v n, deser bs = Some (v, n) -> (1 <= n <= length bs)%nat.
 Proof. exact deser_consumed. Qed.
 Print Assumptions C15_deser_consumed.
 
-(* the request fits exactly when 6 + the argument encodings fit the buffer ... *)
-Theorem C15_request_fits_when : forall cap idx args,
-  Forall transferable args -> len args <= REQ_MAX_ARGS -> 6 + args_size args <= cap ->
-  build_request_cap cap idx args = ReqOk (le_bytes 4 idx ++ le_bytes 2 (len args) ++ flat_map ser args).
-Proof. exact request_fits_when. Qed.
-Print Assumptions C15_request_fits_when.
+(* request_fits: every transferable argument list whose request the protocol can carry is sent *)
+Theorem C15_request_fits : forall idx args,
+  Forall transferable args -> len args <= REQ_MAX_ARGS -> 6 + args_size args <= COP_MAX_PAYLOAD ->
+  build_request idx args = ReqOk (le_bytes 4 idx ++ le_bytes 2 (len args) ++ flat_map ser args).
+Proof. exact request_fits. Qed.
+Print Assumptions C15_request_fits.
 
-(* ... so "every transferable argument list can be sent" is REFUTED by the fixed request buffer of vm_ffi_call_cop:
-   one string argument of REQ_BUF_SIZE - 10 bytes makes the call fail with "COP: failed to serialize arg 0". *)
-Theorem C15_request_fits_refuted :
-  exists args, Forall transferable args /\ len args <= REQ_MAX_ARGS /\ exists idx, build_request idx args = ReqArgFail 0.
-Proof. exact request_fits_refuted. Qed.
-Print Assumptions C15_request_fits_refuted.
+(* ... and only those: beyond the bound some argument is reported as not serializable *)
+Theorem C15_request_too_big : forall cap idx args,
+  Forall wf_value args -> len args <= REQ_MAX_ARGS -> cap < 6 + args_size args -> 6 <= cap ->
+  exists j, build_request_cap cap idx args = ReqArgFail j.
+Proof. exact request_too_big. Qed.
+Print Assumptions C15_request_too_big.
 
-(* one extern call through a healthy co-process returns what the in-process call returns (value or error text),
-   whenever the request fits the request buffer and the result fits the co-process's 1 MiB reply buffer *)
+(* one extern call through a healthy co-process returns what the in-process call returns (value or error text) for EVERY
+   request and result the protocol can carry *)
 Theorem C15_call_transparent : forall (f : callee_t) idx args,
   idx < 2 ^ 32 -> Forall transferable args -> len args <= REQ_MAX_ARGS ->
-  6 + args_size args <= REQ_BUF_SIZE ->
+  6 + args_size args <= COP_MAX_PAYLOAD ->
   outcome_ok (f idx args) ->
   call_cop f idx args = call_inproc f idx args.
 Proof. exact call_transparent. Qed.
 Print Assumptions C15_call_transparent.
 
-(* REFUTED without the size hypothesis on the result: a string result of 1 MiB arrives as void
-   (handle_ffi_req sends FFI_RESULT with payload_len 0 when the second, 1 MiB buffer is too small as well) *)
-Theorem C15_reply_fits_refuted :
+(* what remains REFUTED is the protocol bound itself (COP_MAX_PAYLOAD = 16 MiB per message) and the nesting bound:
+   a string argument of COP_MAX_PAYLOAD - 10 bytes is refused ("COP: failed to serialize arg 0"), *)
+Theorem C15_request_above_max_refuted :
+  exists args, Forall transferable args /\ len args <= REQ_MAX_ARGS /\ exists idx, build_request idx args = ReqArgFail 0.
+Proof. exact request_above_max_refuted. Qed.
+Print Assumptions C15_request_above_max_refuted.
+
+(* a string result of COP_MAX_PAYLOAD bytes comes back as the FFI error "result too large to serialize" (in-process: the value), *)
+Theorem C15_reply_above_max_refuted :
   exists r, transferable r /\
     forall idx, idx < 2 ^ 32 ->
-      call_cop (fun _ _ => ORes r) idx [] = CRes VVoid /\ call_inproc (fun _ _ => ORes r) idx [] = CRes r /\ r <> VVoid.
-Proof. exact reply_fits_refuted. Qed.
-Print Assumptions C15_reply_fits_refuted.
+      call_cop (fun _ _ => ORes r) idx [] = CErr COP_REPLY_TOO_LARGE_MSG /\ call_inproc (fun _ _ => ORes r) idx [] = CRes r.
+Proof. exact reply_above_max_refuted. Qed.
+Print Assumptions C15_reply_above_max_refuted.
+
+(* 257 nested arrays are refused by the decoder while 256 levels round-trip *)
+Theorem C15_nesting_above_max_refuted :
+  wf_value (nest 256) /\ vdepth (nest 256) = 257 /\ deser (ser (nest 256)) = None /\
+  transferable (nest 255) /\ deser (ser (nest 255)) = Some (nest 255, length (ser (nest 255))).
+Proof. exact nesting_above_max_refuted. Qed.
+Print Assumptions C15_nesting_above_max_refuted.
 
 (* values of the other tags (u8, enum, struct, ...) are outside the property: they arrive as void *)
 Theorem C15_other_becomes_void : forall t rest,
